@@ -323,6 +323,16 @@ class GenA:
             contents.append([n, q])
             val, bu = M.parse_quantity(q)
             vol += ms.amount_from(val, bu) * ms.per_amount('L')
+        if contents and rng.random() < self.p.get('p_trace', 0.06):
+            # a trace component: nanomoles in millilitres to litres (concentrations down to 1e-9 in base units)
+            cand = [n for n in names if not self.W.msubs[n].is_enzyme and n not in chosen]
+            if cand:
+                n = rng.choice(cand)
+                amt = round_sig(rng, loguniform(rng, 1.2e7, 1e9) * float(self.W.q_amt(n)), True)
+                q = fmt_quantity(rng, amt, 'mol')
+                contents.append([n, q])
+                val, bu = M.parse_quantity(q)
+                vol += self.W.msubs[n].amount_from(val, bu) * self.W.msubs[n].per_amount('L')
         cap = None
         mode = boundary or rng.choices(['inf', 'roomy', 'tight', 'exact', 'over', 'negative'],
                                        weights=self.p.get('cap_w', [3, 5, 2, 1, 0.5, 0.2]))[0]
@@ -360,9 +370,26 @@ class GenA:
         else:
             nr, nc = rng.choice([(8, 12), (8, 12), (16, 24)])
         rows, cols = nr, nc
-        if rng.random() < 0.25:
+        def case_pairs(n, base):
+            # labels that differ only in letter case: x, X, y, Y, ...
+            out = []
+            for i in range(n):
+                ch = chr(ord(base) + i // 2)
+                out.append(ch if i % 2 == 0 else ch.upper())
+            return out
+        r = rng.random()
+        if r < 0.25:
             rows = [f"r{i}" for i in range(1, nr + 1)] if rng.random() < 0.5 else [chr(ord('h') + i) for i in range(nr)]
-        if rng.random() < 0.25:
+        elif r < 0.31 and nr <= 26:
+            rows = case_pairs(nr, 'p')
+        elif r < 0.37 and 2 <= nr <= 26:
+            # the default letters, in another order (row 'A' is not the first row)
+            rows = [chr(ord('A') + i) for i in range(nr)]
+            rows = rows[::-1] if rng.random() < 0.5 else rows[1:] + rows[:1]
+        r = rng.random()
+        if r < 0.06 and nc <= 26:
+            cols = case_pairs(nc, 'u')
+        elif r < 0.25:
             cols = [f"c{j}" for j in range(1, nc + 1)]
         elif rng.random() < 0.2:
             # digit-only labels that do not coincide with positions (offset or reversed numbering)
